@@ -140,37 +140,223 @@ impl<'tcx> Cx<'tcx> {
         match u { UnwindAction::Cleanup(b) => format!("{}", b.as_usize()), UnwindAction::Continue => "\"continue\"".into(), UnwindAction::Unreachable => "\"unreachable\"".into(), UnwindAction::Terminate(_) => "\"terminate\"".into() }
     }
 
+    fn stable_path(&self, d: DefId) -> String {
+        ty::print::with_no_visible_paths!(ty::print::with_no_trimmed_paths!(self.tcx.def_path_str(d)))
+    }
+
     fn callee(&self, owner: DefId, body: &Body<'tcx>, func: &Operand<'tcx>) -> String {
         let tcx = self.tcx;
         let fty = func.ty(&body.local_decls, tcx);
         match fty.kind() {
             ty::FnDef(d, args) => {
-                let path = tcx.def_path_str(*d);
-                let full = ty::print::with_no_trimmed_paths!(tcx.def_path_str_with_args(*d, args));
+                let path = self.stable_path(*d);
+                let name = tcx.item_name(*d).to_string();
+                let krate = tcx.crate_name(d.krate).to_string();
                 let trait_of = tcx.trait_of_assoc(*d);
                 let env = TypingEnv::post_analysis(tcx, owner);
                 let mut resolved = String::from("null");
-                let mut self_param = false;
+                let mut resolved_local = false;
+                let mut self_ty = String::from("null");
+                let mut self_kind = "none";
                 if trait_of.is_some() {
-                    if let Some(st) = args.types().next() { self_param = matches!(st.kind(), ty::Param(_)) || st.is_closure() && false; }
+                    if let Some(st) = args.types().next() {
+                        self_ty = self.ty(st);
+                        let mut t = st;
+                        // peel references: <&mut F as FnMut>::call_mut
+                        while let ty::Ref(_, inner, _) = t.kind() { t = *inner; }
+                        self_kind = match t.kind() {
+                            ty::Param(_) => "param",
+                            ty::Alias(..) => "alias",
+                            ty::Closure(..) => "closure",
+                            ty::Dynamic(..) => "dyn",
+                            ty::FnPtr(..) => "fnptr",
+                            ty::FnDef(..) => "fndef",
+                            _ => "concrete",
+                        };
+                    }
                     match ty::Instance::try_resolve(tcx, env, *d, args) {
-                        Ok(Some(inst)) => { resolved = esc(&ty::print::with_no_trimmed_paths!(format!("{}", tcx.def_path_str(inst.def_id())))); }
+                        Ok(Some(inst)) => {
+                            let rd = inst.def_id();
+                            resolved_local = rd.is_local();
+                            let kind = match inst.def { ty::InstanceKind::Item(_) => "item", ty::InstanceKind::Virtual(..) => "virtual", ty::InstanceKind::ClosureOnceShim{..} => "closure_once_shim", ty::InstanceKind::FnPtrShim(..) => "fnptr_shim", ty::InstanceKind::DropGlue(..) => "drop_glue", ty::InstanceKind::CloneShim(..) => "clone_shim", _ => "other" };
+                            resolved = format!("{{\"path\":{},\"kind\":{},\"local\":{}}}", esc(&self.stable_path(rd)), esc(kind), resolved_local);
+                        }
                         _ => {}
                     }
                 }
                 let sig = tcx.fn_sig(*d).instantiate_identity().skip_norm_wip();
                 let diverges = sig.output().skip_binder().is_never();
-                format!("{{\"path\":{},\"full\":{},\"trait\":{},\"resolved\":{},\"self_param\":{},\"diverges\":{},\"local\":{}}}",
-                    esc(&path), esc(&full), trait_of.map(|t| esc(&tcx.def_path_str(t))).unwrap_or("null".into()), resolved, self_param, diverges, d.is_local())
+                let gargs: Vec<String> = args.iter().map(|a| esc(&ty::print::with_no_trimmed_paths!(format!("{}", a)))).collect();
+                let inst_ret = func.ty(&body.local_decls, tcx).fn_sig(tcx).output().skip_binder();
+                format!("{{\"path\":{},\"name\":{},\"krate\":{},\"trait\":{},\"self_ty\":{},\"self_kind\":{},\"resolved\":{},\"diverges\":{},\"local\":{},\"gargs\":[{}],\"ret\":{},\"unsafe\":{}}}",
+                    esc(&path), esc(&name), esc(&krate), trait_of.map(|t| esc(&self.stable_path(t))).unwrap_or("null".into()), self_ty, esc(self_kind), resolved, diverges, d.is_local(), gargs.join(","), self.ty(inst_ret), sig.safety().is_unsafe())
             }
             _ => format!("{{\"path\":null,\"indirect\":{}}}", self.ty(fty)),
         }
     }
 
+    fn meta(&self, did: DefId, kind: &str) -> String {
+        let tcx = self.tcx;
+        let mut s = String::from("{");
+        let _ = write!(s, "\"path\":{}", esc(&self.stable_path(did)));
+        let name = tcx.opt_item_name(did).map(|n| n.to_string()).unwrap_or_default();
+        let _ = write!(s, ",\"name\":{}", esc(&name));
+        // enclosing fn for closures
+        let mut fn_did = did;
+        while matches!(tcx.def_kind(fn_did), DefKind::Closure | DefKind::InlineConst | DefKind::AnonConst) { fn_did = tcx.parent(fn_did); }
+        let _ = write!(s, ",\"parent_fn\":{}", esc(&self.stable_path(fn_did)));
+        if matches!(tcx.def_kind(fn_did), DefKind::Fn | DefKind::AssocFn) {
+            let vis = tcx.visibility(fn_did);
+            let reach = fn_did.as_local().map(|l| tcx.effective_visibilities(()).is_reachable(l)).unwrap_or(false);
+            let sig = tcx.fn_sig(fn_did).instantiate_identity().skip_norm_wip();
+            let _ = write!(s, ",\"pub\":{},\"reachable\":{},\"unsafe\":{}", vis.is_public(), reach, sig.safety().is_unsafe());
+            if kind != "closure" && kind != "promoted" {
+                let sb = sig.skip_binder();
+                let ins: Vec<String> = sb.inputs().iter().map(|t| self.ty(*t)).collect();
+                let _ = write!(s, ",\"inputs\":[{}],\"output\":{},\"sig\":{}", ins.join(","), self.ty(sb.output()), esc(&ty::print::with_no_trimmed_paths!(format!("{:?}", sig))));
+            }
+            if tcx.def_kind(fn_did) == DefKind::AssocFn {
+                let parent = tcx.parent(fn_did);
+                match tcx.def_kind(parent) {
+                    DefKind::Impl { of_trait } => {
+                        let st = tcx.type_of(parent).instantiate_identity().skip_norm_wip();
+                        let _ = write!(s, ",\"impl_self\":{}", self.ty(st));
+                        if let ty::Adt(def, _) = st.kind() { let _ = write!(s, ",\"impl_adt\":{}", esc(&self.stable_path(def.did()))); }
+                        if of_trait {
+                            let tr = tcx.impl_trait_ref(parent).instantiate_identity().skip_norm_wip();
+                            let _ = write!(s, ",\"impl_trait\":{},\"impl_trait_full\":{}", esc(&self.stable_path(tr.def_id)), esc(&ty::print::with_no_trimmed_paths!(format!("{}", tr))));
+                        }
+                    }
+                    DefKind::Trait => { let _ = write!(s, ",\"in_trait\":{}", esc(&self.stable_path(parent))); }
+                    _ => {}
+                }
+            }
+            let g = tcx.generics_of(fn_did);
+            let mut names: Vec<String> = Vec::new();
+            let mut gg = Some(g);
+            while let Some(x) = gg {
+                for p in &x.own_params { names.push(esc(&format!("{}:{}", match p.kind { ty::GenericParamDefKind::Lifetime => "lt", ty::GenericParamDefKind::Type{..} => "ty", ty::GenericParamDefKind::Const{..} => "const" }, p.name))); }
+                gg = x.parent.map(|p| tcx.generics_of(p));
+            }
+            let _ = write!(s, ",\"generics\":[{}]", names.join(","));
+        }
+        s.push('}');
+        s
+    }
+
+    fn type_facts(&self) -> String {
+        let tcx = self.tcx;
+        let mut adts: Vec<String> = Vec::new();
+        let mut impls: Vec<String> = Vec::new();
+        let mut statics: Vec<String> = Vec::new();
+        let mut consts: Vec<String> = Vec::new();
+        let mut fns: Vec<String> = Vec::new();
+        for ldid in tcx.hir_crate_items(()).definitions() {
+            let did = ldid.to_def_id();
+            match tcx.def_kind(did) {
+                DefKind::Struct | DefKind::Enum | DefKind::Union => {
+                    let def = tcx.adt_def(did);
+                    let g = tcx.generics_of(did);
+                    let params: Vec<String> = g.own_params.iter().map(|p| esc(&format!("{}:{}", match p.kind { ty::GenericParamDefKind::Lifetime => "lt", ty::GenericParamDefKind::Type{..} => "ty", ty::GenericParamDefKind::Const{..} => "const" }, p.name))).collect();
+                    let mut fields: Vec<String> = Vec::new();
+                    for v in def.variants() {
+                        for f in &v.fields {
+                            let fty = tcx.type_of(f.did).instantiate_identity().skip_norm_wip();
+                            fields.push(format!("{{\"variant\":{},\"name\":{},\"ty\":{},\"pub\":{}}}", esc(v.name.as_str()), esc(f.name.as_str()), self.ty(fty), f.vis.is_public()));
+                        }
+                    }
+                    let reach = tcx.effective_visibilities(()).is_reachable(ldid);
+                    let mut layout = String::from("null");
+                    let sty = tcx.type_of(did).instantiate_identity().skip_norm_wip();
+                    if !sty.has_param() && g.own_params.iter().all(|p| !matches!(p.kind, ty::GenericParamDefKind::Lifetime)) {
+                        let env = TypingEnv::fully_monomorphized();
+                        if let Ok(l) = tcx.layout_of(env.as_query_input(sty)) {
+                            layout = format!("{{\"size\":{},\"align\":{}}}", l.size.bytes(), l.align.abi.bytes());
+                        }
+                    }
+                    let variances: Vec<String> = tcx.variances_of(did).iter().map(|v| esc(&format!("{:?}", v))).collect();
+                    adts.push(format!("{{\"path\":{},\"reachable\":{},\"params\":[{}],\"variances\":[{}],\"fields\":[{}],\"layout\":{},\"repr\":{},\"span\":{}}}", esc(&self.stable_path(did)), reach, params.join(","), variances.join(","), fields.join(","), layout, esc(&format!("{:?}", def.repr())), esc(&self.span(tcx.def_span(did)))));
+                }
+                DefKind::Impl { of_trait } => {
+                    let st = tcx.type_of(did).instantiate_identity().skip_norm_wip();
+                    let mut tr = String::from("null");
+                    let mut trfull = String::from("null");
+                    let mut neg = false;
+                    let mut uns = false;
+                    if of_trait {
+                        let r = tcx.impl_trait_ref(did).instantiate_identity().skip_norm_wip();
+                        tr = esc(&self.stable_path(r.def_id));
+                        trfull = esc(&ty::print::with_no_trimmed_paths!(format!("{}", r)));
+                        neg = matches!(tcx.impl_polarity(did), ty::ImplPolarity::Negative);
+                        uns = tcx.impl_trait_header(did).safety.is_unsafe();
+                    }
+                    let adt = if let ty::Adt(d, _) = st.kind() { esc(&self.stable_path(d.did())) } else { "null".into() };
+                    let items: Vec<String> = tcx.associated_item_def_ids(did).iter().map(|i| esc(&tcx.item_name(*i).to_string())).collect();
+                    impls.push(format!("{{\"self\":{},\"adt\":{},\"trait\":{},\"trait_full\":{},\"negative\":{},\"unsafe\":{},\"items\":[{}],\"span\":{}}}", self.ty(st), adt, tr, trfull, neg, uns, items.join(","), esc(&self.span(tcx.def_span(did)))));
+                }
+                DefKind::Static { mutability, .. } => {
+                    let sty = tcx.type_of(did).instantiate_identity().skip_norm_wip();
+                    let env = TypingEnv::fully_monomorphized();
+                    let freeze = sty.is_freeze(tcx, env);
+                    let mut bytes = String::from("null");
+                    let mut layout = String::from("null");
+                    if let Ok(l) = tcx.layout_of(env.as_query_input(sty)) {
+                        layout = format!("{{\"size\":{},\"align\":{}}}", l.size.bytes(), l.align.abi.bytes());
+                    }
+                    if let Ok(alloc) = tcx.eval_static_initializer(did) {
+                        let a = alloc.inner();
+                        if a.provenance().ptrs().is_empty() {
+                            let b = a.inspect_with_uninit_and_ptr_outside_interpreter(0..a.len());
+                            let v: Vec<String> = b.iter().map(|x| x.to_string()).collect();
+                            bytes = format!("[{}]", v.join(","));
+                        } else {
+                            // record relocation offsets (pointer fields)
+                            let offs: Vec<String> = a.provenance().ptrs().iter().map(|(o, _)| o.bytes().to_string()).collect();
+                            let b = a.inspect_with_uninit_and_ptr_outside_interpreter(0..a.len());
+                            let v: Vec<String> = b.iter().map(|x| x.to_string()).collect();
+                            bytes = format!("{{\"relocs\":[{}],\"raw\":[{}]}}", offs.join(","), v.join(","));
+                        }
+                    }
+                    statics.push(format!("{{\"path\":{},\"mutable\":{},\"ty\":{},\"freeze\":{},\"layout\":{},\"bytes\":{},\"span\":{}}}", esc(&self.stable_path(did)), matches!(mutability, rustc_hir::Mutability::Mut), self.ty(sty), freeze, layout, bytes, esc(&self.span(tcx.def_span(did)))));
+                }
+                DefKind::Const { .. } | DefKind::AssocConst { .. } => {
+                    let g = tcx.generics_of(did);
+                    if g.count() == 0 {
+                        let cty = tcx.type_of(did).instantiate_identity().skip_norm_wip();
+                        if cty.is_integral() || cty.is_bool() {
+                            if let Ok(v) = tcx.const_eval_poly(did) {
+                                if let Some(sc) = v.try_to_scalar_int() {
+                                    consts.push(format!("{{\"path\":{},\"ty\":{},\"val\":{}}}", esc(&self.stable_path(did)), self.ty(cty), esc(&format!("{:?}", sc))));
+                                }
+                            }
+                        }
+                    }
+                }
+                DefKind::Fn | DefKind::AssocFn => {
+                    fns.push(format!("{{\"path\":{},\"meta\":{}}}", esc(&self.stable_path(did)), self.meta(did, "fn")));
+                }
+                _ => {}
+            }
+        }
+        format!("\"adts\":[\n{}],\n\"impls\":[\n{}],\n\"statics\":[\n{}],\n\"consts\":[\n{}],\n\"fns\":[\n{}]\n", adts.join(",\n"), impls.join(",\n"), statics.join(",\n"), consts.join(",\n"), fns.join(",\n"))
+    }
+
     fn body(&self, owner: DefId, body: &Body<'tcx>, id: &str, kind: &str) -> String {
         let tcx = self.tcx;
         let mut s = String::new();
-        let _ = write!(s, "{{\"id\":{},\"kind\":{},\"span\":{},\"argc\":{},\"locals\":[", esc(id), esc(kind), esc(&self.span(body.span)), body.arg_count);
+        let _ = write!(s, "{{\"id\":{},\"kind\":{},\"span\":{},\"argc\":{},\"meta\":{},\"vars\":{{", esc(id), esc(kind), esc(&self.span(body.span)), body.arg_count, self.meta(owner, kind));
+        {
+            let mut first = true;
+            for v in &body.var_debug_info {
+                if let VarDebugInfoContents::Place(p) = &v.value {
+                    if p.projection.is_empty() {
+                        if !first { s.push(','); } first = false;
+                        let _ = write!(s, "\"{}\":{}", p.local.as_usize(), esc(v.name.as_str()));
+                    }
+                }
+            }
+        }
+        s.push_str("},\"locals\":[");
         for (i, d) in body.local_decls.iter().enumerate() { if i > 0 { s.push(','); } s.push_str(&self.ty(d.ty)); }
         s.push_str("],\"blocks\":[");
         for (bi, bb) in body.basic_blocks.iter().enumerate() {
@@ -251,7 +437,9 @@ impl rustc_driver::Callbacks for Cb {
                 out.push_str(&cx.body(did, pb, &format!("{}::promoted[{}]", tcx.def_path_str(did), pi.as_usize()), "promoted"));
             }
         }
-        out.push_str("\n]}\n");
+        out.push_str("\n],\n");
+        out.push_str(&cx.type_facts());
+        out.push_str("}\n");
         let path = std::env::var("BUMPSCAN_OUT").unwrap_or_else(|_| "/tmp/bumpscan.json".into());
         std::fs::write(&path, out).unwrap();
         eprintln!("bumpscan: wrote {} bodies to {}", n, path);
